@@ -131,19 +131,21 @@ pub fn multifile_symbols(rng: &mut Rng, disk: &mut crate::disk::Disk) -> String 
     let dirs = ["", "inc/", "lib/"];
     let mut root = String::from("#ruledef\n{\n    put {v: u8} => v\n}\n\n");
     let names = ["aaa", "bbb", "ccc", "ddd", "eee"];
+    // two programs in five carry errors (in several parts and/or the root)
+    let errs = rng.chance(2, 5);
     let mut order: Vec<usize> = (0..n).collect();
     rng.shuffle(&mut order);
     for k in order {
         let path = format!("{}part{}.asm", rng.pick(&dirs), k);
         let mut body = format!("{}:\n    put {}\n.sub:\n    put {}\nval_{} = {}\n", names[k], k + 1, k + 11, names[k], k + 21);
-        if rng.chance(1, 4) {
+        if errs && rng.chance(1, 2) {
             // an error of its own in this part
             body.push_str(&format!("    put missing_in_{}\n", names[k]));
         }
         disk.add_file(&path, body.into_bytes());
         root.push_str(&format!("#include \"{}\"\n", path));
     }
-    if rng.chance(1, 3) {
+    if errs && rng.chance(1, 2) {
         root.push_str("    put undefined_thing\n");
     }
     disk.add_file("multi.asm", root.clone().into_bytes());
@@ -163,8 +165,11 @@ pub fn multifile_symbols(rng: &mut Rng, disk: &mut crate::disk::Disk) -> String 
 /// read spans of library files.
 pub fn std_program(rng: &mut Rng) -> Vec<u8> {
     let mut s = String::from("#include \"<std>/cpu/6502.asm\"\n\nstart:\n");
+    // half of the programs assemble: no out-of-range operand, and `far`
+    // is only branched to when it exists and is in reach
+    let errs = rng.chance(1, 2);
     for _ in 0..rng.range(2, 7) {
-        s.push_str(match rng.below(9) {
+        s.push_str(match if errs { rng.below(9) } else { *rng.pick(&[0usize, 1, 2, 3, 4, 5, 8, 8]) } {
             0 => "    lda #0x10\n",
             1 => "    sta 0x2000\n",
             2 => "    ldx #5\n",
@@ -178,6 +183,8 @@ pub fn std_program(rng: &mut Rng) -> Vec<u8> {
     }
     if rng.chance(1, 3) {
         s.push_str("#res 300\nfar:\n    rts\n");
+    } else if !errs && rng.chance(1, 2) {
+        s.push_str("    bne near\n#res 30\nnear:\n    rts\n");
     }
     s.into_bytes()
 }
@@ -720,7 +727,7 @@ pub fn pool_job(seed: u64, k: usize, c: &Corpus) -> Job {
             spec.groups.push(Group { format: Some(f.to_string()), out: if rng.chance(2, 3) { Some(format!("out{}.txt", n)) } else { None }, print: rng.chance(1, 5) });
         }
         if root == "prog.asm" {
-            for _ in 0..rng.below(3) {
+            for _ in 0..(if rng.chance(1, 3) { rng.range(1, 2) } else { 0 }) {
                 spec.defines.push(format!("{}={}", rng.pick(&["alpha_const", "beta_const", "UNUSED1", "UNUSED2", "zeta_const"]), rng.below(9)));
             }
         }
